@@ -7,14 +7,14 @@ use vlab::engine::report::{self, Check, Tier};
 fn parts(tier: Tier) -> Vec<(TKind, usize, u32)> {
     match tier {
         Tier::Quick => vec![(TKind::Model, 5, 4), (TKind::Model, 4, 3), (TKind::Pci, 3, 4)],
-        Tier::Thorough => vec![(TKind::Model, 7, 4), (TKind::Model, 6, 3), (TKind::Model, 6, 1), (TKind::Pci, 4, 4), (TKind::MmioLegacy, 4, 4)],
+        Tier::Thorough => vec![(TKind::Model, 6, 4), (TKind::Model, 6, 3), (TKind::Model, 6, 1), (TKind::Pci, 4, 4), (TKind::MmioLegacy, 4, 4)],
     }
 }
 
 fn ring_parts(tier: Tier) -> Vec<(usize, u32)> {
     match tier {
         Tier::Quick => vec![(6, 3), (6, 4)],
-        Tier::Thorough => vec![(9, 3), (9, 4), (8, 5), (8, 2)],
+        Tier::Thorough => vec![(8, 3), (8, 4), (7, 5), (8, 2)],
     }
 }
 
@@ -54,14 +54,14 @@ fn main() {
     for (t, d, cap) in parts(args.tier) {
         let part = format!("vsock-credit:{}:depth={}:cap={}", t.name(), d, cap);
         let mut cfg = DfsConfig::new(&part, 0);
-        cfg.wall_cap = Duration::from_secs(if args.tier == Tier::Quick { 30 } else { 1800 });
+        cfg.wall_cap = Duration::from_secs(if args.tier == Tier::Quick { 30 } else { 900 });
         let st = dfs::explore(&cfg, &move || c17::run(t, d, cap));
         c.add_dfs(&part, &st);
     }
     for (d, cap) in ring_parts(args.tier) {
         let part = format!("vsock-ring:depth={}:cap={}", d, cap);
         let mut cfg = DfsConfig::new(&part, 0);
-        cfg.wall_cap = Duration::from_secs(if args.tier == Tier::Quick { 30 } else { 1800 });
+        cfg.wall_cap = Duration::from_secs(if args.tier == Tier::Quick { 30 } else { 900 });
         let st = dfs::explore(&cfg, &move || c17::run_mode(TKind::Model, d, cap, true));
         c.add_dfs(&part, &st);
     }
@@ -70,7 +70,7 @@ fn main() {
         let d = if args.tier == Tier::Quick { 4 } else { 6 };
         let part = format!("vsock-large-buffers:model:depth={}", d);
         let mut cfg = DfsConfig::new(&part, 0);
-        cfg.wall_cap = Duration::from_secs(if args.tier == Tier::Quick { 30 } else { 1800 });
+        cfg.wall_cap = Duration::from_secs(if args.tier == Tier::Quick { 30 } else { 900 });
         let st = dfs::explore(&cfg, &move || c17::run_large(TKind::Model, d));
         c.add_dfs(&part, &st);
     }
